@@ -38,6 +38,16 @@ CHECKS.update({
    technique='Coq proof over generated calibration formulas + hand-written control model with vm_compute correspondence',
    ref='DESIGN.md section 7, C10'),
 })
+CHECKS.update({
+ 'C18': dict(
+   text='Machine-checked proof (Coq) about a generic-arithmetic model of bisect and chandrupatla (real-number instance): rejection of invalid brackets, '
+        'bracket/sign invariant and halving, result inside the bracket within max(tol, w0/2^maxiter)/2 of a root (IVT), lane independence (lane i = scalar run for the '
+        'batch iteration count, k1 <= k), chandrupatla invariant (a,b in bracket with sign change, xm in {a,b}), termination accuracy, scalar = one lane; unbounded lanes/iterations. '
+        'Tie: the PrimFloat instance of the same Gallina code is executed by vm_compute and must equal copulas.optimize bit for bit (results, brackets, iteration counts).',
+   note=TB + 'Model.RootFind is hand-written (correspondence, not translation); theorems are for exact reals; chandrupatla convergence within 50 iterations is not proved.',
+   technique='Coq proof over hand-written generic model; bit-exact PrimFloat differential correspondence',
+   ref='DESIGN.md section 7, C18'),
+})
 NOT_YET = {}
 def main():
     props = [json.loads(l) for l in open(os.path.join(V, 'properties.jsonl'))]
